@@ -1,5 +1,5 @@
 """C08 — schemas are immutable values: deriving a schema never changes an existing one."""
-import os, re, shutil
+import os, re, shutil, time
 from . import common as C
 
 MANIFEST = dict(
@@ -8,7 +8,7 @@ MANIFEST = dict(
    note="No open finding: the 28 meta-returns-receiver classes were one defect, fixed in /repo 6ba76b8. The store model is a hand-written abstraction (observation = contents reachable from the schema; Parse/ToJSONSchema of non-object types are taken to be functions of it), tied to /repo by reflective snapshots (slice headers, map identities, contents) and behavioural fingerprints (31 probes, IsOptional/IsNilable, ToJSONSchema) after every call of ~1400 type×method pairs; the method table is produced by a syntactic translator (no go/types; constructors are opaque), validated per call against the op class, the number of appended checks and the per-field sharing the run shows; append capacities and 'result starts with a registry entry' are taken from the run as parameters; member schemas are oracles of objParse; sync.Once-guarded cache fills (ZodLazy.innerType) are classed memo and not counted as changes. Trusted: Lean kernel, axioms propext/Classical.choice/Quot.sound, the Go harness, translator and comparer.",
    design="DESIGN.md §3.4, §5 C08; notes/C08.md")
 
-MODULES = ["Gozod.Proofs.C08", "Gozod.Proofs.C08Methods", "Gozod.Proofs.C08Objects"]
+MODULES = ["Gozod.Proofs.C08", "Gozod.Proofs.C08Methods", "Gozod.Proofs.C08Objects", "Gozod.Proofs.C08Holders"]
 THEOREMS = [
     "Gozod.C08.c08_step", "Gozod.C08.c08_hist", "Gozod.C08.c08_hist_all", "Gozod.C08.c08_fresh",
     "Gozod.C08.applyOp_spec", "Gozod.C08.clone_spec", "Gozod.C08.appendAll_spec",
@@ -28,8 +28,15 @@ THEOREMS = [
     "Gozod.C08.obsO_frame", "Gozod.C08.objConstruct_spec", "Gozod.C08.objDerive_spec", "Gozod.C08.applyObjOp_spec",
     "Gozod.C08.c08o_step", "Gozod.C08.c08o_behaviour", "Gozod.C08.c08o_hist",
     "Gozod.C08.extend_content", "Gozod.C08.pick_content", "Gozod.C08.omit_content", "Gozod.C08.partialKeys_content",
-    "Gozod.C08.requiredKeys_content", "Gozod.C08.mode_content", "Gozod.C08.catchall_content",
+    "Gozod.C08.requiredKeys_content", "Gozod.C08.requiredAll_content", "Gozod.C08.required_is_required",
+    "Gozod.C08.mode_content", "Gozod.C08.catchall_content",
     "Gozod.C08.partial_makes_optional", "Gozod.C08.partial_keeps_required",
+    # round 4b: schemas that hold other schemas or value lists (union / xor / intersection / enum / containers / transform / pipe / default values)
+    "Gozod.C08.obsH_frame", "Gozod.C08.applyHOp_spec", "Gozod.C08.c08h_step", "Gozod.C08.world_step", "Gozod.C08.hAccept_congr",
+    "Gozod.C08.c08h_behaviour", "Gozod.C08.c08h_hist", "Gozod.C08.c08h_hist_behaviour",
+    "Gozod.C08.or_content", "Gozod.C08.and_content", "Gozod.C08.transform_content", "Gozod.C08.pipe_content",
+    "Gozod.C08.extract_content", "Gozod.C08.exclude_content", "Gozod.C08.withRest_content", "Gozod.C08.default_content",
+    "Gozod.C08.prefault_content", "Gozod.C08.enum_verdict", "Gozod.C08.union_verdict", "Gozod.C08.inter_verdict",
 ]
 
 
@@ -49,13 +56,14 @@ def key(op, impl, M, S):
     iv = impl.split(" ")[0].split(";")
     if iv and iv[0].startswith("V:"):
         iv[0] = iv[0][2:]
-    if len(head) > 1 and head[1] == "OBJ":
-        # object-content histories: steps are <recv> <op> <arg>
+    if len(head) > 1 and head[1] in ("OBJ", "HOLD"):
+        # object- / holder-content histories: steps are <recv> <op> <arg>
+        who = "ZodObject" if head[1] == "OBJ" else "holder"
         for k, st in enumerate(steps):
-            if k < len(iv) and iv[k] not in ("1:", "e:"):
+            if k < len(iv) and iv[k] not in ("1:", "e:", "a:"):
                 what = "returns-receiver" if iv[k].startswith("0") else "changes-live-schema"
-                return "%s:ZodObject.%s" % (what, st[1])
-        return "tie:object-content"
+                return "%s:%s.%s" % (what, who, st[1])
+        return "tie:object-content" if head[1] == "OBJ" else "tie:holder-content"
     first_meta, first_other = None, None
     for k, st in enumerate(steps):
         if k >= len(iv) or iv[k] == "1:":
@@ -71,6 +79,9 @@ def key(op, impl, M, S):
 
 
 def describe(op):
+    if steps_of(op)[0][1:2] == ["HOLD"]:
+        return ("holder-content history: plain members P:<leaf>=<accepts token 1..6 = 'v','long',7,'a','b','c'> (L0 String, L1 Int, L2 String.Min(3)), base B:<kind>:<members>; "
+                "steps <receiver index> <derivation> <argument> (L<i> a plain member, S<j> the j-th schema of the history); see harness/cmd/c08/holdhist.go")
     if steps_of(op)[0][1:2] == ["OBJ"]:
         return ("object-content history: members M:<id>=<optional><accepts 'v'> (0 String, 1 String.Optional, 2 Int, 3 String.Min(1)), base Object B:<key>=<member>; "
                 "steps <receiver index> <derivation> <argument> (keys k1..k4 = 1..4); see harness/cmd/c08/objhist.go")
@@ -130,12 +141,25 @@ def driver_query(word):
     return [x for x in line.split(",") if x]
 
 
+class Phase:
+    """wall and CPU (self + children, i.e. without waiting for the shared lake / go locks) seconds of one phase"""
+    def __init__(self, res, name):
+        self.res, self.name = res, name
+    def __enter__(self):
+        self.t, self.c = time.time(), sum(os.times()[:4])
+    def __exit__(self, *a):
+        d = self.res.coverage.setdefault("phase_seconds", {})
+        d[self.name] = {"wall": round(time.time() - self.t, 1), "cpu": round(sum(os.times()[:4]) - self.c, 1)}
+
+
 def run(res):
-    okT, detT = translate(res)
+    with Phase(res, "translate"):
+        okT, detT = translate(res)
     if not okT:
         C.tie_broken(res, "translator C08 (types/*.go -> Gen/MethodOps.lean)", detT)
         return res.finish()
-    ok, detail = C.prove(res, MODULES, THEOREMS)
+    with Phase(res, "prove"):
+        ok, detail = C.prove(res, MODULES, THEOREMS)
     extra = []
     if not ok:
         C.tie_broken(res, "proof Gozod.Proofs.C08 / C08Methods", detail)
@@ -149,7 +173,8 @@ def run(res):
     else:
         ex = driver_query("c08 exceptions") or []
         res.coverage["table_exception_rows"] = ex
-    data, err = C.correspond(res, "C08", extra_args=extra)
+    with Phase(res, "correspond"):
+        data, err = C.correspond(res, "C08", extra_args=extra)
     if data is None:
         C.tie_broken(res, "correspondence C08/store-histories", err)
         return res.finish()
@@ -157,6 +182,8 @@ def run(res):
     st = data[3]
     res.coverage["type_methods_enumerated"] = st.get("type_methods")
     res.coverage["base_schemas"] = st.get("bases")
+    res.coverage["object_content_histories"] = st.get("object_content_histories")
+    res.coverage["holder_content_histories"] = st.get("holder_content_histories")
     res.coverage["rule"] = ("for each of the base schemas (every schema type) and each exported method whose result can be a schema (reflection), "
         "two argument variants: history A = method on the fresh base, sibling from the same base, random method, method on the result; "
         "history B = 2-4 random chaining calls, the method on a random live schema, 2 more (thorough: 8 more); history C = 17-long check chains "
